@@ -21,6 +21,10 @@ type FilterPlan struct {
 	FilterCPs  []int32
 	FalseCP    bool // the injected filter checkpoint contradicts every peer
 	Growth     int  // blocks the honest chain grows by between rounds
+	// Legacy: after the initial header sync the hash->height index entries
+	// are moved to the pre-sub-bucket location (an upgraded installation's
+	// database; see Stores.LegacyIndex).
+	Legacy bool
 }
 
 // PeerBehaviour describes one scripted peer of a filter session.
